@@ -7,7 +7,7 @@ use crate::prng::{Rng, mix};
 use crate::stream::Faults;
 use crate::util::{fnv, fnv_mix};
 
-pub const PAIRS: &[&str] = &["same", "larger", "smaller", "shrunk_same", "shrunk_smaller"];
+pub const PAIRS: &[&str] = &["same", "larger", "smaller", "shrunk_same", "shrunk_smaller", "zero_size_same"];
 
 /// Number of enumeration groups: kind x pair x layout index.
 pub fn enum_groups(layouts_per_kind: u64) -> u64 {
@@ -37,6 +37,7 @@ pub fn group_spec(seed: u64, g: u64, layouts_per_kind: u64, small: bool) -> Grou
         "larger" => (sender.resized(&mut rng2, true), 0),
         "smaller" => (sender.resized(&mut rng2, false), 0),
         "shrunk_same" => (sender.clone(), 1),
+        "zero_size_same" => (sender.clone(), 255),
         _ => (sender.resized(&mut rng2, false), 1),
     };
     GroupSpec {
@@ -465,7 +466,7 @@ pub fn run_random(
                 blob: rng.below(3) as usize,
                 obj: o,
                 seed: rng.next(),
-                shrink: *rng.pick(&[0u32, 0, 1, 2]),
+                shrink: *rng.pick(&[0u32, 0, 0, 1, 1, 2, 255]),
             }
         } else if choice < 35 {
             let mut f = benign(&mut rng);
@@ -536,7 +537,7 @@ pub fn run_random(
             if rng.chance(700) || kind == "LWE" {
                 Op::SetSize {
                     obj: o,
-                    s: rng.range(1, max.max(1)) as usize,
+                    s: rng.range(0, max.max(1)) as usize,
                 }
             } else {
                 Op::Realloc {
